@@ -16,16 +16,35 @@ PIPE_CFG = """SPECIFICATION Spec
 CONSTANTS
  Workers = {w1, w2}
  Dgrams <- %(dg)s
- Bufs = {b1, b2, b3, b4}
+ Bufs = {%(bufs)s}
  UdpCap = 1
  MqCap = 3
  EarlyPut = %(early)s
  Alias = %(alias)s
  CloseWaits = %(close)s
+ MaxRetire = %(retire)d
+ RetireDrops = %(drops)s
 INVARIANTS NoPanic PublishedIsOwn AtMostOnce NoUseAfterPut CountsSane CountsExact ExactlyOnceIfData NoPhantom
 CHECK_DEADLOCK FALSE
 """
 PROTOS = ["ipfix", "netflow9", "netflow5", "sflow"]
+
+
+def pipe_cfg(**kw):
+    d = dict(dg="MCDgrams", bufs="b1, b2, b3", early="FALSE", alias="FALSE", close="TRUE", retire=0, drops="FALSE")
+    d.update(kw)
+    return PIPE_CFG % d
+
+
+def pipeline_model(ctx, thorough, retire=False):
+    """the pipeline model at the tier's size: quick 3 datagrams / 3 buffers (1.07 M states, 6 s) and, with retire, 2 data
+    datagrams / 4 buffers / one worker told to quit (4.7 M, 22 s); thorough 3 datagrams / 4 buffers / retire (28 M, 100 s)"""
+    if thorough:
+        ctx.tlc_model("PipelineMC", "mc.cfg", files={"mc.cfg": pipe_cfg(bufs="b1, b2, b3, b4", retire=1)}, timeout=2400, heap="12g")
+        return
+    ctx.tlc_model("PipelineMC", "mc.cfg", files={"mc.cfg": pipe_cfg()}, timeout=900)
+    if retire:
+        ctx.tlc_model("PipelineMC", "mcr.cfg", files={"mcr.cfg": pipe_cfg(dg="MCDgrams2", bufs="b1, b2, b3, b4", retire=1)}, timeout=900)
 
 
 def make_job(ctx, proto, workers, seed, ndata):
@@ -78,8 +97,8 @@ def run_job(ctx, drv, job, tag):
 
 def check(ctx, want="C12"):
     thorough = ctx.tier == "thorough"
-    ctx.rule = ("model: Pipeline.tla (receive loop, 2 workers, 3 datagrams (data / template-only / malformed), 4 pooled buffers, bounded "
-                "queues, consumer, shutdown; 6.8 M states): PublishedIsOwn, NoUseAfterPut, AtMostOnce, ExactlyOnceIfData, CountsExact, "
+    ctx.rule = ("model: Pipeline.tla (receive loop, 2 workers, 3 datagrams (data / template-only / malformed), 3-4 pooled buffers, bounded "
+                "queues, consumer, shutdown, dynamic-worker retirement; 1.1 M states quick, 28 M thorough): PublishedIsOwn, NoUseAfterPut, AtMostOnce, ExactlyOnceIfData, CountsExact, "
                 "NoPhantom, NoPanic; the variants 'buffer returned before decoding', 'encode buffer queued without a copy' and 'queue "
                 "closed without waiting for the receive loop' must each be refuted. Code: the REAL worker functions of the four "
                 "protocols run on their real queues and receive-buffer pool with GOMAXPROCS(1), every worker held at the hooks of "
@@ -90,11 +109,11 @@ def check(ctx, want="C12"):
                 "(1-4 workers, 12-60 datagrams of mixed sizes from 4 exporters); distinct by (protocol, workers, seed).")
     ctx.assumptions += ["templates are announced and fully processed before the interleaved data phase, so the templates in force are determinate",
                         "sFlow's ColTime (wall clock) is masked"]
-    ctx.tlc_model("PipelineMC", "mc.cfg", files={"mc.cfg": PIPE_CFG % dict(dg="MCDgrams", early="FALSE", alias="FALSE", close="TRUE")}, timeout=900)
+    pipeline_model(ctx, thorough)
     for sw, exp in (("early", "NoUseAfterPut"), ("alias", "PublishedIsOwn"), ("close", "NoPanic")):
-        d = dict(dg="MCDgrams2", early="FALSE", alias="FALSE", close="TRUE")
+        d = dict(dg="MCDgrams2", bufs="b1, b2, b3, b4")
         d[sw] = "TRUE" if sw != "close" else "FALSE"
-        ctx.tlc_must_fail("PipelineMC", "dev.cfg", files={"dev.cfg": PIPE_CFG % d}, expect=exp, workers=16)
+        ctx.tlc_must_fail("PipelineMC", "dev.cfg", files={"dev.cfg": pipe_cfg(**d)}, expect=exp, workers=16)
     drv = ctx.go_build_test("vflow", ["vflow/pipeline_verif_test.go"])
     jobs = []
     nrun = 10 if thorough else 3
@@ -133,9 +152,12 @@ def check(ctx, want="C12"):
                 break
         rows.append({"ev": "Reset"})
         index.append((job, None))
-        for e in r["events"]:
+        for k, e in enumerate(r["events"]):
             rows.append(e)
             index.append((job, e))
+            if e["ev"] in ("Deq", "Consume", "Probe", "Gone"):
+                # one evaluation per datagram a real worker took, per message the producer took, per pool probe
+                ctx.count([proto, job["workers"], job["seed"], k, e["ev"], e.get("d"), e.get("p")], nontrivial=e["ev"] != "Probe" or bool(e.get("got")))
     out = ctx.tlc("PipelineTrace", "PipelineTrace.cfg", workers=1, timeout=1500, heap="6g",
                   files={"trace.ndjson": "".join(json.dumps(x) + "\n" for x in rows)})
     ctx.states += out.distinct
